@@ -19,8 +19,8 @@ for site, p, lp in iter_cells():
     except Exception as e:
         if prop == 'C01': judged += 1; failing.append(site + ['parse/rebuild raises %s on valid input' % type(e).__name__, p, ''])
         continue
-    if prop == 'C03' and (kname in WS_KINDS or cname == 'nest'): continue
-    if prop == 'C06' and not (kname in WS_KINDS or kname in LINE_LEVEL or cname == 'nest'): continue
+    if prop == 'C03' and (kname in WS_KINDS or cname in ('nest', 'atom')): continue
+    if prop == 'C06' and not (kname in WS_KINDS or kname in LINE_LEVEL or cname in ('nest', 'atom')): continue
     judged += 1
     v = judge(prop, p, r, lambda t: parse(t).rebuild())
     if v: failing.append(site + [v, p, r])
